@@ -130,7 +130,7 @@ func drainWithCancel(ctx context.Context, cancel context.CancelFunc, n int64, re
 // stopAtPlotStart (set during some stress-real scenarios): every other plot that starts (the first one included) is hit by a stop request at the
 // very moment it starts (between the DB announcing "plotting" and its plot goroutine running).
 var stopAtPlotStart int32
-var plotStarts, stopsAtStart int64
+var plotStarts, stopsAtStart, lateStops, stopsHeld int64
 
 func installSendHook() {
 	verifhook.SetPoint("plot.starting", func(args ...interface{}) {
@@ -140,9 +140,25 @@ func installSendHook() {
 		}
 		if db, ok := args[0].(interface{ StopPlot() chan error }); ok {
 			atomic.AddInt64(&stopsAtStart, 1)
+			atomic.AddInt64(&lateStops, 1)
 			go func() { <-db.StopPlot() }()
 			time.Sleep(300 * time.Microsecond)
 		}
+	})
+	// ... and every stop request delivered that way is then held for 40 ms between "the plot is running" and the moment
+	// it takes the stop lock: a small plot ends by itself meanwhile (a stop request that finds its plot already over)
+	verifhook.SetPoint("plot.stopping", func(args ...interface{}) {
+		for {
+			n := atomic.LoadInt64(&lateStops)
+			if n <= 0 {
+				return
+			}
+			if atomic.CompareAndSwapInt64(&lateStops, n, n-1) {
+				break
+			}
+		}
+		atomic.AddInt64(&stopsHeld, 1)
+		time.Sleep(40 * time.Millisecond)
 	})
 	verifhook.SetPoint("proofrw.send", func(args ...interface{}) {
 		atomic.AddInt64(&sendsSeen, 1)
@@ -226,6 +242,7 @@ type Rec struct {
 	SendCancels int64 `json:"send_cancels"`
 	// stop requests delivered to a plot at the moment it started
 	StopsAtStart int64 `json:"stops_at_plot_start"`
+	StopsHeld    int64 `json:"stops_held_before_the_stop_lock"`
 }
 
 type tracker struct {
@@ -413,6 +430,39 @@ func scenario(rng *vh.Rng, idx int, kind string, base string) Rec {
 		G, M := rng.Range(4, 16), rng.Range(20, 60)
 		rec.Params = fmt.Sprintf("spaces=%d bl=%d goroutines=%d calls=%d external_unlinks=%v", n, bl, G, M, a.plotDir != "")
 		sk.Start()
+		if kind == "stress-fake" && idx%3 == 1 {
+			// "however many requests are outstanding": 40-80 streaming proof queries arrive at the same moment, each
+			// table lookup takes a millisecond or two (more queries in flight than any worker pool of the keeper has workers)
+			burst := rng.Range(40, 80)
+			ctl.SetProofDelay(time.Duration(rng.Range(1, 2)) * time.Millisecond)
+			rec.Params += fmt.Sprintf(" query_burst=%d", burst)
+			var bwg sync.WaitGroup
+			go0 := make(chan struct{})
+			for b := 0; b < burst; b++ {
+				bwg.Add(1)
+				go func() {
+					defer bwg.Done()
+					<-go0
+					tr.do("GetProofsReader (burst)", func() {
+						var ch pocutil.Hash
+						rd, err := sk.GetProofsReader(context.Background(), engine.SFAll, ch, false)
+						if err != nil {
+							return
+						}
+						for {
+							if _, e := rd.Read(); e != nil {
+								return
+							}
+						}
+					})
+				}()
+			}
+			close(go0)
+			if !waitAll(&rec, tr, &bwg) {
+				break
+			}
+			ctl.SetProofDelay(0)
+		}
 		if !stress(rng, a, tr, &rec, G, M, true) {
 			break
 		}
@@ -691,6 +741,8 @@ func child(seed int64, from, to int, out, prog string, thorough bool) {
 		rec := scenario(root.Derive("scen", i), i, kind, dir)
 		rec.Sends, rec.SendCancels = atomic.SwapInt64(&sendsSeen, 0), atomic.SwapInt64(&sendsCancelled, 0)
 		rec.StopsAtStart = atomic.SwapInt64(&stopsAtStart, 0)
+		rec.StopsHeld = atomic.SwapInt64(&stopsHeld, 0)
+		atomic.StoreInt64(&lateStops, 0)
 		b, _ := json.Marshal(rec)
 		of.Write(append(b, '\n'))
 		of.Sync()
@@ -908,6 +960,7 @@ func judge(run *vh.Run, rec *Rec) {
 	run.Count("observed:streamed_proof_sends", rec.Sends)
 	run.Count("observed:queries_given_up_exactly_at_a_send", rec.SendCancels)
 	run.Count("observed:stops_delivered_at_plot_start", rec.StopsAtStart)
+	run.Count("observed:stop_requests_held_40ms_before_the_stop_lock", rec.StopsHeld)
 	if rec.Leaked > 40 {
 		run.Count("observed:scenarios_with_more_than_40_extra_goroutines_after_stop", 1)
 	}
